@@ -153,6 +153,10 @@ package combinator
 //@ pure func cpMerged(s *sequence, d int) bool = forall x int :: data.Member(data.ElemsOf(GhostElemCp(s, d)), x) ==> data.Member(data.ElemsOf(s.curtailingParsers), x)
 //@ pure func cpMono(s *sequence) bool = forall x int :: old(data.Member(data.ElemsOf(s.curtailingParsers), x)) ==> data.Member(data.ElemsOf(s.curtailingParsers), x)
 //@ pure func elemCpKept(s *sequence, upto int) bool = forall d int :: d < upto ==> same(GhostElemCp(s, d), old(GhostElemCp(s, d)))
+//@ -- GhostTried(s, d): how many alternatives of element d have been handed to parseNext by the activation that explores
+//@ -- depth d (C01, C03: every alternative the element's parser returned is explored, none skipped)
+//@ ghostfun GhostTried(s *sequence, d int) int
+//@ pure func triedKept(s *sequence, upto int) bool = forall d int :: d < upto ==> GhostTried(s, d) == old(GhostTried(s, d))
 
 //@ func (s *sequence) parse(depth int, ctx *parsley.Context, lrc data.IntMap, pos parsley.Pos, merge bool) (done bool)
 //@   flag slow
@@ -167,6 +171,9 @@ package combinator
 //@   assert_at call:HandleResult#2 [handler-input;C01,C04] len(lastarg[[]parsley.Node](3)) == depth && forall k int :: 0 <= k && k < depth ==> same(lastarg[[]parsley.Node](3)[k], s.nodes[k])
 //@   ghost_at call:Parse#1 GhostElemCp(s, depth) = lastres[data.IntSet](1)
 //@   ensures  [cp-mono;C01] cpMono(s) && elemCpKept(s, depth)
+//@   ghost_at call:parseNext#1 GhostTried(s, depth) = GhostTried(s, depth) + 1
+//@   ghost_at call:parseNext#2 GhostTried(s, depth) = GhostTried(s, depth) + 1
+//@   ensures  [tried-kept;C01,C03] triedKept(s, depth)
 //@   requires [L;C06] seqErrOK(s)
 //@   ensures  [L;C06] seqErrOK(s)
 //@   ghost_at call:Parse#1 when lastres[parsley.Error](2) != nil && lastres[parsley.Error](2).Pos() > parsley.GhostBest :: parsley.GhostBest = lastres[parsley.Error](2).Pos()
@@ -174,7 +181,7 @@ package combinator
 //@   ensures  [nodes-arr;C07] (array(s.nodes) == old(array(s.nodes)) && cap(s.nodes) == old(cap(s.nodes))) || fresh(s.nodes)
 //@   ensures  [result-arr;C07] s.result == nil || parsley.ListArr(s.result) == 0 || freshid(parsley.ListArr(s.result)) || (old(s.result) != nil && parsley.ListArr(s.result) == old(parsley.ListArr(s.result)) && parsley.NAlts(s.result) >= old(parsley.NAlts(s.result)) && parsley.NAlts(s.result) + parsley.ListSpare(s.result) == old(parsley.NAlts(s.result) + parsley.ListSpare(s.result)))
 //@   ensures  [alt-frame;C07] seqFrame(s)
-//@   assigns  GhostElemCp
+//@   assigns  GhostElemCp, GhostTried
 //@   assigns  s.curtailingParsers, s.result, s.err, s.nodes, cells(s.nodes)
 //@   assigns  ite(s.result != nil && typeis[ast.NodeList](s.result), cells(s.result.(ast.NodeList), len(s.result.(ast.NodeList)), cap(s.result.(ast.NodeList))), nothing())
 //@   assigns  like parsley.Parser.Parse(nil, ctx, lrc, pos)
@@ -186,6 +193,7 @@ package combinator
 //@   invariant same(s.parserLookUp, old(s.parserLookUp)) && same(s.lenCheck, old(s.lenCheck)) && same(s.resultHandler, old(s.resultHandler)) && s.token == old(s.token) && same(s.interpreter, old(s.interpreter))
 //@   invariant [active;C02] parsley.ActiveOK(lrc, pos)
 //@   invariant [cp-merged;C01] cpMono(s) && elemCpKept(s, depth) && (merge ==> cpMerged(s, depth))
+//@   invariant [all-alts;C01,C03] triedKept(s, depth) && GhostTried(s, depth) == old(GhostTried(s, depth)) + k
 //@   invariant [L;C06] seqErrOK(s)
 //@   invariant [rest] forall j int :: k <= j && j < len(rest) ==> validSeqNode(rest[j]) && pos <= rest[j].ReaderPos()
 //@   invariant [alt-frame] seqFrame(s)
@@ -211,13 +219,14 @@ package combinator
 //@   ensures  [next-consumed;C01,C02,C03,C04] node.ReaderPos() > pos ==> !callarg[bool](1, 5) && forall k int :: !dom(data.MapOf(callarg[data.IntMap](1, 3)), k)
 //@   requires [cp-merged;C01] merge ==> cpMerged(s, depth)
 //@   ensures  [cp-mono;C01] cpMono(s) && elemCpKept(s, depth+1)
+//@   ensures  [tried-kept;C01,C03] triedKept(s, depth+1)
 //@   requires [L;C06] seqErrOK(s)
 //@   ensures  [L;C06] seqErrOK(s)
 //@   ensures  [pc1;C04] s.result != nil || s.err != nil || parsley.GhostCurtailed
 //@   ensures  [nodes-arr;C07] (array(s.nodes) == old(array(s.nodes)) && cap(s.nodes) == old(cap(s.nodes))) || fresh(s.nodes)
 //@   ensures  [result-arr;C07] s.result == nil || parsley.ListArr(s.result) == 0 || freshid(parsley.ListArr(s.result)) || (old(s.result) != nil && parsley.ListArr(s.result) == old(parsley.ListArr(s.result)) && parsley.NAlts(s.result) >= old(parsley.NAlts(s.result)) && parsley.NAlts(s.result) + parsley.ListSpare(s.result) == old(parsley.NAlts(s.result) + parsley.ListSpare(s.result)))
 //@   ensures  [alt-frame;C07] seqFrame(s)
-//@   assigns  GhostElemCp
+//@   assigns  GhostElemCp, GhostTried
 //@   assigns  s.curtailingParsers, s.result, s.err, s.nodes, cells(s.nodes)
 //@   assigns  ite(s.result != nil && typeis[ast.NodeList](s.result), cells(s.result.(ast.NodeList), len(s.result.(ast.NodeList)), cap(s.result.(ast.NodeList))), nothing())
 //@   assigns  like parsley.Parser.Parse(nil, ctx, lrc, pos)
@@ -237,7 +246,7 @@ package combinator
 //@   ensures  [L-success;C06] n != nil && parsley.GhostBest >= 0 ==> ctx.Error() != nil && ctx.Error().Pos() >= parsley.GhostBest
 //@   ensures  [cp] data.Inv(cp)
 //@   ensures  [one] n != nil ==> err == nil
-//@   assigns  GhostElemCp
+//@   assigns  GhostElemCp, GhostTried
 //@   assigns  s.curtailingParsers, s.result, s.err, s.nodes, cells(s.nodes)
 //@   assigns  like parsley.Parser.Parse(nil, ctx, lrc, pos)
 
